@@ -291,7 +291,54 @@ def eval_program(spec, b, res, stats, npts, whole=None):
         check_point(spec, b['text'], b['conds'], b['pens'], kind, x, res, stats, inp, b['cross'])
 
 
+# ----------------------------------------------------------------------------- family: a != line coupled with a bound
+NE_TEMPLATES = ['{a} <= {c}\n{a} != {c}', '{a} != {b}\n{a} <= {b}', '{b} != {a}\n{a} <= {b}', '{b} != {a}\n{a} >= {b}',
+                '{a} != {b}\n{a} >= {b}', '{b} != {a}\n{a} <= {b}\n{d} >= 0.', '{a} >= {c}\n{a} != {c}', '{b} != {a} + 1.\n{a} <= {b}']
+
+
+def gen_ne_coupled(seed):
+    rng = random.Random('ne|%d' % seed)
+    out = []
+    for t in NE_TEMPLATES:
+        nv = rng.choice([3, 4, 12])
+        ia, ib, idd = rng.sample(range(nv), 3)
+        names = {'a': 'x%d' % ia, 'b': 'x%d' % ib, 'd': 'x%d' % idd, 'c': repr(float(rng.choice([3, -2, 0, 1.5])))}
+        out.append({'family': 'ne-coupled', 'text': t.format(**names), 'nv': nv, 'seed': seed, 'tag': 'ne-coupled|' + t})
+    return out
+
+
+def check_ne_coupled(spec, res, stats, npts):
+    """a `!=` line together with a non-strict bound on the same pair of variables (the parser makes the bound's solver
+    step off the forbidden value): every line must hold at constraint(x) and the penalty of the same text must be 0"""
+    import mystic.symbolic as ms
+    key = 'C14/bounded/ne-coupled/'
+    text, nv = spec['text'], spec['nv']
+    rng = random.Random('nepts|%s|%d' % (text, spec['seed']))
+    try:
+        ineqf, eqf = ms.generate_conditions(text, nvars=nv)
+        pen = ms.generate_penalty((ineqf, eqf))
+        cons = ms.generate_constraint(ms.generate_solvers(text, nvars=nv))
+    except Exception as e:      # noqa
+        res.violation(key + 'compiles', 'compiling %r raised %r' % (text, e), dict(spec))
+        return
+    lines = [l.strip() for l in text.splitlines() if l.strip()]
+    pts = [[float(rng.randint(-4, 4)) for _ in range(nv)] for _ in range(npts)] + [[3.0] * nv, [0.0] * nv, [float(i % 5) for i in range(nv)]]
+    for x in pts:
+        inp = dict(spec, x=list(x))
+        y = [float(v) for v in cons(list(x))]
+        env = {'x%d' % i: v for i, v in enumerate(y)}
+        holds = all(eval(l, {}, env) for l in lines)
+        p = float(pen(y))
+        res.case('%s%s|%s' % (key, spec['tag'], 'moved' if y != x else 'kept'), True, sample=inp if y != x else None)
+        if not holds or p != 0.0:
+            res.violation(key + 'constraint-satisfies-condition', '%r: constraint(%r) = %r, lines hold: %s, penalty there %r'
+                          % (text, x, y, holds, p), inp)
+            return
+
+
 def check_program(spec, res, stats, npts):
+    if spec['family'] == 'ne-coupled':
+        return check_ne_coupled(spec, res, stats, npts)
     if spec['family'] != 'sequence':
         b = compile_program(spec, res, stats)
         return b and eval_program(spec, b, res, stats, npts)
@@ -435,7 +482,8 @@ def run(tier='quick', seed=0):
              for i, (c, s, n) in enumerate(itertools.product(CMPS, SCHEMES, (2, 3, 4)))]
     seqs = [gen_sequence(c, s, e, d, seed * 100 + r) for r in range(reps) for c, s, (e, d) in itertools.product(
         CMPS, SCHEMES, (('const', False), ('gcall', False), ('none', False), ('none', True)))]
-    jobs = [(p[i:i + n], npts) for p, n in ((cross, 4), (joins, 3), (seqs, 6), (progs, 12)) for i in range(0, len(p), n)]
+    nec = [sp for r in range(reps * 2) for sp in gen_ne_coupled(seed * 100 + r)]
+    jobs = [(p[i:i + n], npts) for p, n in ((cross, 4), (joins, 3), (seqs, 6), (progs, 12), (nec, 8)) for i in range(0, len(p), n)]
     tot = {}
     for part, stats in pmap(_work, jobs):
         res.merge(part)
